@@ -5,8 +5,12 @@
         for `r = construct a` (`skip <Kind>` when the constructor itself raises)
     query.replace_rec <17 recorded-argument tokens> <17 keyword tokens>
         the same from recorded arguments read off a real object (`_original_rule` + scalar attributes)
+    query.replace_gen <17 recorded-argument tokens> <17 keyword tokens>
+        the same through the program TRANSLATED from the source of `rrule.replace` (`Gen.replaceProgram`, `ReplacePy.run`):
+        scalar attributes and `_original_rule` as read off the real object
 -/
 import DateutilVerif.Model.RRuleReplace
+import DateutilVerif.Generated.ReplaceProgram
 import DateutilVerif.Ops.RRule
 
 namespace Ops.ReplaceOps
@@ -35,12 +39,25 @@ def parseKw? (orig kwt : List String) : Option Kw := do
          byminute := if p 15 then some v.byminute else none,
          bysecond := if p 16 then some v.bysecond else none }
 
+/-- the translated method on an object whose scalar attributes and `_original_rule` are the recorded tokens -/
+def runGen (a : Args) (kw : Kw) : String :=
+  let r : Rule := { (default : Rule) with freq := a.freq, interval := a.interval, wkst := a.wkst.getD 0, dtstart := a.dtstart, tz := a.tz,
+                                          count := a.count, untilDT := a.untilDT }
+  let recorded : Kw := { bysetpos := some a.bysetpos, bymonth := some a.bymonth, bymonthday := some a.bymonthday, byyearday := some a.byyearday,
+                         byeaster := some a.byeaster, byweekno := some a.byweekno, byweekday := some a.byweekday, byhour := some a.byhour,
+                         byminute := some a.byminute, bysecond := some a.bysecond }
+  if Gen.replaceProgram.ctor != "rrule" then "untranslated-ctor" else
+  match (ReplacePy.run Gen.replaceProgram r recorded kw).bind ReplacePy.toArgs with
+  | some m => Py.showR showRule (construct m)
+  | none => "untranslated-program"
+
 def handle (op : String) (args : List String) : Option String :=
-  if op != "query.replace" && op != "query.replace_rec" then none else
+  if op != "query.replace" && op != "query.replace_rec" && op != "query.replace_gen" then none else
   if args.length != 34 then some "bad-args" else
   match parseArgs? (args.take 17), parseKw? (args.take 17) (args.drop 17) with
   | some a, some kw =>
-    if op == "query.replace_rec" then some (Py.showR showRule (replaceFrom a kw))
+    if op == "query.replace_gen" then some (runGen a kw)
+    else if op == "query.replace_rec" then some (Py.showR showRule (replaceFrom a kw))
     else match construct a with
       | .error e => some ("skip " ++ e.name)
       | .ok r => some (Py.showR showRule (replaceFrom (origArgs a r) kw))
